@@ -84,6 +84,12 @@ var Ops = []Op{
 	{"mac-nia2", func(s int) string { return mac(2, s, 40) }},
 	{"mac-nia2-long-then-short", func(s int) string { return mac(2, s, 300) + mac(2, s+1, 20) }},
 	{"mac-nia3", func(s int) string { return mac(3, s, 24) }},
+	// long payloads (a table, window or scratch area that an implementation sets up only beyond some size)
+	{"encrypt-nea1-long", func(s int) string { return enc(1, s, 2100) }},
+	{"encrypt-nea2-long", func(s int) string { return enc(2, s, 2100) }},
+	{"encrypt-nea3-long", func(s int) string { return enc(3, s, 2100) }},
+	{"mac-nia1-long", func(s int) string { return mac(1, s, 2100) }},
+	{"mac-nia3-long", func(s int) string { return mac(3, s, 2100) }},
 	{"encrypt-invalid-bearer", func(s int) string {
 		p := msg(s, 8)
 		err := security.NASEncrypt(2, key(s), 1, 32, 0, p)
